@@ -10,3 +10,11 @@ func (l *Log) VerifPoolLen() int {
 	defer l.poolMu.Unlock()
 	return len(l.currentPool.pendingLeaves)
 }
+
+// VerifIssuerKnown reports whether the in-memory issuer cache (l.issuers) holds the fingerprint,
+// i.e. whether uploadIssuer would return at once without touching the backend.
+func (l *Log) VerifIssuerKnown(fingerprint [32]byte) bool {
+	l.issuersMu.RLock()
+	defer l.issuersMu.RUnlock()
+	return l.issuers[fingerprint]
+}
